@@ -754,7 +754,7 @@ pub fn gen_plan(seed: u64, run: u64) -> Plan {
     }
     let ops = g.ops;
     // element-shape swarm dimension (drawn last so that the plans of earlier versions keep their shape)
-    let elem = if is_mat { 0 } else { [0, 0, 0, 0, 0, 0, 0, 0, 0, 3, 1, 1, 1, 1, 2, 2][rng.below(16) as usize] };
+    let elem = if is_mat { if rng.chance(1, 16) { 3 } else { 0 } } else { [0, 0, 0, 0, 0, 0, 0, 0, 0, 3, 1, 1, 1, 1, 2, 2][rng.below(16) as usize] };
     // a quarter of the runs give every element the same payload value, so that comparisons
     // between iterators in different cursor states do not stop at the first pair
     let uniform = rng.chance(1, 4);
